@@ -52,6 +52,9 @@ def sequence(rng, exact):
                     t += ["NR", "0", "1", exact_f(rng)]
         elif r < 6:
             t += ["CR", str(rng.below(7)), "0", G.rcolor(rng)]
+            if rng.below(3) == 0:
+                big = lambda: C.fh(float(rng.choice([16383, 16384, 16385, 20000, 65536, 1000000, 1 << 24])))
+                t += rng.choice([["LOD", C.fh(0.0), big()], ["NR", "0", "1", big()], ["LOD", C.fh(float(rng.choice([0, 1, 16, 64]))), big()]])
         elif r < 9:
             t += helper(rng)
             t += ["SP", "0", exact_f(rng), exact_f(rng), "L", exact_f(rng), exact_f(rng), "l", exact_f(rng), exact_f(rng), "Z"]
